@@ -157,10 +157,11 @@ def subsetText (t : Str) : Prop := ∀ c ∈ t, textChar c = true
 instance (t : Str) : Decidable (subsetText t) := by unfold subsetText; infer_instance
 
 def WFDocEntry (e : DocEntry) : Prop :=
-  e.attrs ≠ 2 ∧ (∀ a ∈ e.accessions, subsetText a) ∧ (∀ n ∈ e.names, subsetText n) ∧ subsetText e.seq
+  e.attrs ≤ 1 ∧ (∀ a ∈ e.accessions, subsetText a) ∧ (∀ n ∈ e.names, subsetText n) ∧ subsetText e.seq
 
-/-- the documents the theorems speak about: valid against the schema (no entry carries the non-numeric
-`version`), texts within the subset's character data -/
+/-- the documents the theorems speak about: valid against the schema (`attrs ≤ 1`: no entry carries the
+non-numeric `version`), texts within the subset's character data (no `<`, `&`, `]`, no carriage return, no
+U+FFFE / U+FFFF; otherwise any characters, ASCII or not) -/
 def WFDoc (d : Doc) : Prop := ∀ e ∈ d.entries, WFDocEntry e
 
 instance (d : Doc) : Decidable (WFDoc d) := by unfold WFDoc WFDocEntry; infer_instance
@@ -193,19 +194,18 @@ theorem digit_valueChar {c : Char} (h : c.isDigit = true) : valueChar '"' c = tr
   have h1 : c ≠ '<' := by intro e; subst e; exact absurd h (by decide)
   have h2 : c ≠ '&' := by intro e; subst e; exact absurd h (by decide)
   have h3 : c ≠ '"' := by intro e; subst e; exact absurd h (by decide)
-  have h4 : 32 ≤ c.toNat := by
-    simp only [Char.isDigit, Bool.and_eq_true, decide_eq_true_eq] at h
-    have := h.1
+  simp only [Char.isDigit, Bool.and_eq_true, decide_eq_true_eq] at h
+  have h4 : 32 ≤ c.toNat ∧ c.toNat ≤ 57 := by
     simp only [Char.toNat]
-    exact Nat.le_trans (by decide) (UInt32.le_iff_toNat_le.mp this)
-  simp [valueChar, legalChar, h1, h2, h3, h4]
+    exact ⟨Nat.le_trans (by decide) (UInt32.le_iff_toNat_le.mp h.1), UInt32.le_iff_toNat_le.mp h.2⟩
+  have h5 : c.toNat ≠ 0xFFFE ∧ c.toNat ≠ 0xFFFF := by omega
+  simp [valueChar, legalChar, h1, h2, h3, h4.1, h5.1, h5.2]
 
-theorem wfAttrs_entry (n : Nat) (hv : n ≠ 2) : ∀ a ∈ entryAttrs n, WFAttr a := by
+theorem wfAttrs_entry (n : Nat) (hv : n ≤ 1) : ∀ a ∈ entryAttrs n, WFAttr a := by
   match n with
   | 0 => simp [entryAttrs]
   | 1 => decide
-  | 2 => exact absurd rfl hv
-  | _ + 3 => exact (show ∀ a ∈ entryAttrs 3, WFAttr a by decide)
+  | _ + 2 => omega
 
 theorem wfAttrs_seq (d : DocEntry) : ∀ a ∈ seqAttrs d, WFAttr a := by
   unfold seqAttrs
